@@ -16,7 +16,7 @@ from mc import battery, env, fsparse, par, schedx, seqx, world
 from mc.battery import Exc, call, p64
 
 MOD = 'checks.c06_undo'
-KINDS = ['new', 'new2', 'mod', 'mod2', 'same', 'undo', 'undo2', 'reopen',
+KINDS = ['new', 'new2', 'mod', 'mod2', 'same', 'stalegone', 'undo', 'undo2', 'reopen',
          'pack']
 
 
@@ -201,6 +201,88 @@ def db_scenarios(kind):
                             dict(error=repr(e)[:300]))
                     finally:
                         w.close()
+    # DB.undoMultiple: several transactions undone in ONE transaction; every
+    # object any of them wrote must be invalidated in every connection
+    for h, ids in (([('x',), ('y',)], (1, 0)), ([('x',), ('y',)], (0, 1)),
+                   ([('x',), ('y',), ('x',)], (0, 1)),
+                   ([('x', 'y'), ('y',)], (1, 0))):
+        for cache in (True, False):
+            wit = dict(kind=kind, history=h, undo_multiple=list(ids),
+                       cached=cache)
+            w = dbworld.DBWorld(kind, record=False)
+            try:
+                res['cov']['traces_validated_against_impl'] += 1
+                res['cov']['states'] += 1
+                tm1 = transaction.TransactionManager()
+                c1 = w.db.open(tm1)
+                vals = [{n: 0 for n in w.names}]
+                for names in h:
+                    env.CLOCK.now += 1
+                    cur = dict(vals[-1])
+                    for n in names:
+                        c1.root()[n].v = cur[n] = w.newval()
+                    tm1.get().note('t%d' % (len(vals) - 1))
+                    tm1.commit()
+                    vals.append(cur)
+                tm2 = transaction.TransactionManager()
+                c2 = w.db.open(tm2)
+                if cache:
+                    {n: c2.root()[n].v for n in w.names}
+                # expected: undo newest-listed first, each restoring the
+                # state before its transaction for the objects it wrote;
+                # refused if an object was written by a later transaction
+                # that is not undone as well
+                info = w.db.undoInfo(0, 99)
+                by_note = {d['description']: d['id'] for d in info}
+                idxs = list(ids)            # 0 = newest
+                hidx = [len(h) - 1 - i for i in idxs]
+                # the ids are undone in the order given; an undo goes through
+                # iff, for every object it wrote, it is the newest writer
+                # that has not been undone yet (plain class: no merging)
+                want = dict(vals[-1])
+                refused = False
+                undone = set()
+                for hi2 in hidx:
+                    for n in h[hi2]:
+                        writers = [j for j in range(len(h))
+                                   if n in h[j] and j not in undone]
+                        if not writers or writers[-1] != hi2:
+                            refused = True
+                        want[n] = vals[hi2][n]
+                    undone.add(hi2)
+                env.CLOCK.now += 1
+                UE = env.mod('ZODB.POSException').UndoError
+                try:
+                    w.db.undoMultiple(
+                        [by_note['t%d' % j] for j in hidx], tm1.get())
+                    tm1.commit()
+                    outcome = 'ok'
+                except UE:
+                    tm1.abort()
+                    outcome = 'refused'
+                res['cov']['evaluations'] += 1
+                res['outcomes']['multi-' + outcome] = \
+                    res['outcomes'].get('multi-' + outcome, 0) + 1
+                if refused != (outcome == 'refused'):
+                    bad('visible', 'db-undomultiple-%s' % outcome, wit,
+                        dict(expected_refused=refused))
+                    continue
+                final = vals[-1] if refused else want
+                tm2.abort()
+                got = {n: c2.root()[n].v for n in w.names}
+                res['cov']['distinct_nontrivial'] += 1
+                if got != final:
+                    bad('visible', 'observer-after-undomultiple', wit,
+                        dict(got=got, want=final))
+                got = {n: c1.root()[n].v for n in w.names}
+                if got != final:
+                    bad('visible', 'undoer-after-undomultiple', wit,
+                        dict(got=got, want=final))
+            except Exception as e:      # noqa: B902
+                bad('error', 'db:%s' % type(e).__name__, wit,
+                    dict(error=repr(e)[:300]))
+            finally:
+                w.close()
     return res
 
 
